@@ -45,7 +45,7 @@ type ARec struct {
 	Drop  bool   `json:"drop,omitempty"`  // carries the marker the configured drop filter matches
 	Fill  int    `json:"fill,omitempty"`  // filler bytes in the message
 	Multi int    `json:"multi,omitempty"` // continuation lines
-	Raw   string `json:"raw,omitempty"`   // hostile material sent verbatim instead of a record (C07)
+	Raw   rawStr `json:"raw,omitempty"`   // hostile material sent verbatim instead of a record (C07)
 	TS    int    `json:"ts,omitempty"`    // timestamp variant
 }
 
@@ -106,6 +106,21 @@ type AScenario struct {
 	FinalStop     bool       `json:"final_stop_without_waiting"` // stop at the end without waiting for delivery (records may stay on disk)
 	QueueCap      int        `json:"queue_cap"`
 	MaxBufBytes   int        `json:"max_buf_bytes"`
+}
+
+// rawStr is a byte string that survives JSON: encoding/json would replace invalid UTF-8 by U+FFFD and a replay file would
+// no longer carry the hostile bytes of the original run
+type rawStr string
+
+func (r rawStr) MarshalJSON() ([]byte, error) { return json.Marshal([]byte(r)) }
+
+func (r *rawStr) UnmarshalJSON(b []byte) error {
+	var raw []byte
+	if err := json.Unmarshal(b, &raw); err != nil {
+		return err
+	}
+	*r = rawStr(raw)
+	return nil
 }
 
 func (w *worldA) Decode(raw json.RawMessage) (any, error) {
@@ -191,7 +206,7 @@ transformations:
 // recordLine renders the bytes a client sends for one record (including the final newline)
 func (s *AScenario) recordLine(client, seq int, rec ARec) string {
 	if rec.Raw != "" {
-		return rec.Raw
+		return string(rec.Raw)
 	}
 	kt := s.KeyTuples[rec.Key%len(s.KeyTuples)]
 	sev := 6
@@ -201,9 +216,13 @@ func (s *AScenario) recordLine(client, seq int, rec ARec) string {
 	if rec.Drop {
 		msgid = "dropme"
 	}
-	ts := []string{
+	// several variants have the same length and differ only in the zone, so that zone strings of different records sit at the
+	// same offset of reused backing buffers
+	tsv := []string{
 		"2024-03-05T10:20:30.123456+02:00", "2024-03-05T10:20:30Z", "2024-12-31T23:59:59.999999999-11:30", "2023-01-01T00:00:00.5+00:00",
-	}[rec.TS%4]
+		"2024-03-05T10:20:30.123456-07:00", "2024-03-05T10:20:30.123456+05:30", "2024-03-05T10:20:30.123456+00:00", "2024-03-05T10:20:30.123456-03:00",
+	}
+	ts := tsv[rec.TS%len(tsv)]
 	host := []string{"h1", "h2"}[(client+seq)%2]
 	msg := fmt.Sprintf("c%d.n%d#", client, seq) // self-delimiting: a truncated stamp never equals another stamp
 	if rec.Fill > 0 {
@@ -336,8 +355,9 @@ func hostileLine(r *simrt.Rand, n int) string {
 		return strings.Replace(valid, "<13>1", "<13>2", 1) + "\n"
 	case 5: // NIL timestamp
 		return strings.Replace(valid, "2024-03-05T10:20:30Z", "-", 1) + "\n"
-	case 6: // truncated timestamp
-		return strings.Replace(valid, "2024-03-05T10:20:30Z", "2024-03-05T10:2", 1) + "\n"
+	case 6: // timestamp truncated at any length
+		full := "2024-03-05T10:20:30.123456+02:00"
+		return strings.Replace(valid, "2024-03-05T10:20:30Z", full[:1+r.Intn(len(full)-1)], 1) + "\n"
 	case 7: // missing tokens
 		return "<13>1 2024-03-05T10:20:30Z hostonlyxxxxxxxxxxxxxxxxxxxxxxxxxxxxxxxx\n"
 	case 8: // first token shorter than the parser expects, reaches it as an untested leading block
@@ -378,6 +398,19 @@ func hostileLine(r *simrt.Rand, n int) string {
 	return strings.Replace(valid, "<13>1", "<191>1", 1) + "\n"
 }
 
+// burstTimes returns the scheduled times (ms) at which clients write their bursts
+func burstTimes(s *AScenario) []int {
+	var out []int
+	for _, cl := range s.Clients {
+		t := cl.StartMs
+		for _, bu := range cl.Bursts {
+			t += bu.PauseMs
+			out = append(out, t)
+		}
+	}
+	return out
+}
+
 // tweak adapts the generic scenario to the property profile
 func (w *worldA) tweak(r *simrt.Rand, s *AScenario, end int) {
 	restarts := func(n int) {
@@ -392,10 +425,16 @@ func (w *worldA) tweak(r *simrt.Rand, s *AScenario, end int) {
 		s.MemCap = r.Range(2, 4)
 	case "c05":
 		s.IBufLogs = []int{2, 3, 4}[r.Intn(3)]
-		s.ChunkMaxRecs = []int{1, 2, 3}[r.Intn(3)]
-		s.MemCap = r.Range(2, 4)
+		s.ChunkMaxRecs = []int{1, 1, 2, 3}[r.Intn(4)]
+		s.MemCap = r.Range(2, 6)
 		if len(s.KeyTuples) > 3 {
 			s.KeyTuples = s.KeyTuples[:3]
+		}
+		// stop requests that land while freshly cut chunks sit in the memory window: right at / after a burst
+		if bt := burstTimes(s); len(bt) > 0 {
+			for i, n := 0, 1+r.Intn(2); i < n; i++ {
+				s.Events = append(s.Events, AEvent{AtMs: bt[r.Intn(len(bt))] + []int{0, 0, 1, 5, 600}[r.Intn(5)], Kind: "restart"})
+			}
 		}
 	case "c06":
 		nk := 1 + r.Intn(3)
@@ -431,7 +470,7 @@ func (w *worldA) tweak(r *simrt.Rand, s *AScenario, end int) {
 				for _, rec := range bu.Recs {
 					if r.Bool(45) {
 						n++
-						recs = append(recs, ARec{Raw: hostileLine(r, n)})
+						recs = append(recs, ARec{Raw: rawStr(hostileLine(r, n))})
 					}
 					recs = append(recs, rec)
 				}
@@ -466,14 +505,16 @@ func (w *worldA) tweak(r *simrt.Rand, s *AScenario, end int) {
 			}
 		}
 	case "c12":
-		s.PoolMin = 32
-		s.PoolMode = 1
+		// thresholds inside the range of record lengths mix pooled and unpooled records on the same record structs
+		s.PoolMin = []int{32, 32, 90, 150, 400}[r.Intn(5)]
+		s.PoolMode = []int{1, 1, 0}[r.Intn(3)]
 		for ci := range s.Clients {
 			for bi := range s.Clients[ci].Bursts {
 				bu := &s.Clients[ci].Bursts[bi]
 				bu.CutAt = 0
 				for ri := range bu.Recs {
 					rec := &bu.Recs[ri]
+					rec.TS = r.Intn(8)
 					switch r.Intn(5) {
 					case 0:
 						rec.Multi = 1 + r.Intn(2)
